@@ -9,12 +9,18 @@
 extern "C" void __libc_free(void*);
 extern "C" void* __libc_realloc(void*, size_t);
 
+extern "C" void sim_tso_free_range(const void* addr, size_t size);
+
 extern "C" void free(void* p) {
+  if (p)
+    sim_tso_free_range(p, malloc_usable_size(p)); // pending buffered stores into the block land first
   if (p && rd_on() && !rd_busy)
     rd_clear(p, malloc_usable_size(p));
   __libc_free(p);
 }
 extern "C" void* realloc(void* p, size_t n) {
+  if (p)
+    sim_tso_free_range(p, malloc_usable_size(p));
   if (p && rd_on() && !rd_busy)
     rd_clear(p, malloc_usable_size(p));
   return __libc_realloc(p, n);
